@@ -1900,7 +1900,7 @@ impl Property for C11 {
         }
     }
     fn rule_text(&self) -> String {
-        "The first indices enumerate completely every single fault placement (and, thorough, every pair) over three fixed projects. Each further simulated run: a PRNG-generated project (1-8 Lua sources in nested directories with awkward names, non-Lua files, optional bundling DAG (path or luau mode) with data files and .luaurc aliases, or convert_require through a Rojo sourcemap or to nested path aliases, requires with and without extension, optional top-level file filters), configuration (default/empty/random rule lists over all rules, 3 generators), invocation shape (file|dir input; no|file|dir|new output; fail-fast) and fault plan (content faults, persistent or n-th-call read/write faults, structural EISDIR/ENOTDIR) is executed on SimFs (or the real Memory arm, or the real file system through the real binary or the library) under a chosen enumeration order and std hash seed, compared with a fault-free reference run without the bad files, re-executed under another order+hash seed, and run a second time over its own result. evaluations = darklua process() executions. A run is non-trivial when it has >= 2 sources and (>= 1 injected fault fired or >= 2 distinct orders were compared); distinct = distinct normalised op-log (I/O signature) among non-trivial runs.".to_owned()
+        "The first indices enumerate completely every single fault placement (and, thorough, every pair) over three fixed projects. Each further simulated run: a PRNG-generated project (1-8 Lua sources in nested directories with awkward names, non-Lua files, optional bundling DAG (path or luau mode) with data files and .luaurc aliases, or convert_require through a Rojo sourcemap or to nested path aliases, requires with and without extension, through a `sources` entry or through configuration aliases, a module above the working directory, optional top-level file filters), configuration (default/empty/random rule lists over all rules, 3 generators), invocation shape (file|dir input in several spellings incl. paths that climb above the working directory; no|file|dir|new output or the input itself as output; fail-fast) and fault plan (content faults, persistent or n-th-call read/write faults, structural EISDIR/ENOTDIR) is executed on SimFs (or the real Memory arm, or the real file system through the real binary or the library) under a chosen enumeration order and std hash seed, compared with a fault-free reference run without the bad files, re-executed under another order+hash seed, and run a second time over its own result. evaluations = darklua process() executions. A run is non-trivial when it has >= 2 sources and (>= 1 injected fault fired or >= 2 distinct orders were compared); distinct = distinct normalised op-log (I/O signature) among non-trivial runs.".to_owned()
     }
     fn assumptions(&self) -> Vec<String> {
         vec![
